@@ -1,9 +1,9 @@
 (* C01 — property theorems only. A dumped configuration re-parses to the same configuration.
    Model: Model/C01Conf.v (value level: adapt_typehints serialise/deserialise, _check_type, dump cleanup, skip_default,
-   text layer scalar by scalar over the REGENERATED resolver tables Gen/C01Resolvers.v); guard = finding classes:
+   text layer scalar by scalar over the REGENERATED resolver tables Gen/C01Tables.v); guard = finding classes:
    Model/C01Guard.v; proofs: Proofs/ScalarProofs.v, Proofs/C01Proofs.v, Proofs/C01TableProofs.v. *)
 From JV Require Import Lib.Base Lib.Regex Model.TyVal Model.Scalar Proofs.ScalarProofs Model.C01Conf Model.C01Guard
-  Proofs.C01Proofs Proofs.C01TableProofs Gen.C01Resolvers.
+  Proofs.C01Proofs Proofs.C01TableProofs Gen.C01Tables.
 
 (* (S1) Every string that the dumper's resolver leaves a plain `str` scalar is read back as `str` by the
    loader: L(loader's implicit non-str resolvers, with first-character dispatch) ⊆ L(dumper's).
